@@ -16,7 +16,7 @@ PID = 'C09'
 LEVEL = 'exploration'
 RULE = ('Covariance: datasets incl. a singular one (duplicated feature); RCA: chunk layouts {alphabet chunks with -1, every '
         'point chunked, large unbalanced chunks} x n_components in None,1..d; LFDA: layouts {as given, a class smaller than '
-        'k+1 listed first / last, renamed classes, a singleton class} x k in 1..d-1 and None x embedding_type x n_components in None,1..d; '
+        'k+1 listed first / last, renamed classes, a singleton class, identical rows inside a class} x k in 1..d-1 and None x embedding_type x n_components in None,1..d; '
         'signature = (learner, dataset, layout, options); non-trivial = every case (distinct data / options)')
 ASSUMPTIONS = ['References: explicit outer-product covariance and Moore-Penrose conditions; within-chunk covariance from '
                'explicit chunk means; LFDA scatter matrices from the PAIRWISE definition (Sugiyama 2007) with sigma_i = distance '
@@ -35,7 +35,7 @@ def cases(tier, seed):
         out.append(('Covariance/%s' % dsn, ('cov', dsn, seed)))
         for lay in ('alphabet', 'all_chunked', 'big_chunks'):
             out.append(('RCA/%s/%s' % (dsn, lay), ('rca', dsn, lay, seed)))
-        for lay in ('given', 'small_first', 'small_last', 'renamed', 'singleton'):
+        for lay in ('given', 'small_first', 'small_last', 'renamed', 'singleton', 'duplicates'):
             out.append(('LFDA/%s/%s' % (dsn, lay), ('lfda', dsn, lay, seed)))
     out.append(('Covariance/singular', ('cov_singular', seed)))
     out.append(('Covariance/ill_conditioned', ('cov_illcond', seed)))
@@ -117,14 +117,18 @@ def run_case(spec):
             C = [[sum((r[i] - mean[i]) * (r[j] - mean[j]) for r in Xf) / (n - 1) for j in range(d)] for i in range(d)]
             Ci = np.array([[float(x) for x in row] for row in finv(C)])
             cond = np.linalg.cond(np.array([[float(x) for x in row] for row in C]))
-            M = ml.Covariance().fit(X.copy()).get_mahalanobis_matrix()
-            evals += 1
-            rel = (np.abs(M - Ci) / np.sqrt(np.outer(np.abs(np.diag(Ci)), np.abs(np.diag(Ci))))).max()
-            head['residual'] = max(head['residual'], rel / (1e3 * cond * 2.2e-16))
-            if rel > 1e3 * cond * 2.2e-16:
-                viol.append(V('Covariance.fit', 'not_inverse', 'covariance with condition number %.3g: M differs from the exact inverse by %.3g '
-                              '(scaled entrywise)' % (cond, rel), ['ill_conditioned']))
-            sigs.add(('Covariance', 'illcond', ratio))
+            for dt in (np.float64, np.float32):       # the float32 copy holds exactly the same numbers (dyadic grid)
+                Xd = X.astype(dt)
+                if not np.array_equal(Xd.astype(float), X):
+                    continue
+                M = ml.Covariance().fit(Xd).get_mahalanobis_matrix()
+                evals += 1
+                rel = (np.abs(M - Ci) / np.sqrt(np.outer(np.abs(np.diag(Ci)), np.abs(np.diag(Ci))))).max()
+                head['residual'] = max(head['residual'], rel / (1e3 * cond * 2.2e-16))
+                if not rel <= 1e3 * cond * 2.2e-16:
+                    viol.append(V('Covariance.fit', 'not_inverse', 'covariance with condition number %.3g (%s input): M differs from the exact '
+                                  'inverse by %.3g (scaled entrywise)' % (cond, np.dtype(dt).name, rel), ['ill_conditioned', np.dtype(dt).name]))
+                sigs.add(('Covariance', 'illcond', ratio, np.dtype(dt).name))
         return dict(evals=evals, sigs=sigs, viol=viol, headroom=head,
                     sample={'learner': 'Covariance', 'data': 'S3u with feature scales 1, r, 1/r for r in 2^10, 2^14, 2^18'})
     if kind in ('cov', 'cov_singular'):
@@ -217,6 +221,10 @@ def run_case(spec):
         ds = get_ds(dsn, seed)
         X = ds.X.copy()
         y = lfda_layout(ds, lay)
+        if lay == 'duplicates':                # repeated measurements: identical rows inside a class (and one across classes)
+            big = np.bincount(y).argmax()
+            same = np.where(y == big)[0]
+            X[same[1]] = X[same[0]]
         n, d = X.shape
         ks = [None] + list(range(1, d))
         ncs = [None] + list(range(1, d + 1))
@@ -225,6 +233,8 @@ def run_case(spec):
         for k in ks:
             keff = min(7, d - 1) if k is None else k
             Sb, Sw = lfda_reference(X, y, keff)
+            if np.linalg.cond(Sw) > 1e8:
+                continue                # duplicated rows made the within-class scatter (numerically) singular: not well-formed
             lam_all = np.sort(scipy.linalg.eigh(Sb, Sw, eigvals_only=True))[::-1]
             for nc in ncs:
                 dim = nc or d
